@@ -197,6 +197,25 @@ func (pl *Pipeline) SetTrustAnchors(keys []string) error {
 	return nil
 }
 
+// SetUnusableTrustAnchors installs the universe's trust anchors with their key material made undecodable (the
+// first base64 character mistyped, as in a damaged rootkeys line): a NON-EMPTY trust set from which no root
+// DS can be derived, so no chain of trust can start.
+func (pl *Pipeline) SetUnusableTrustAnchors() error {
+	var rrs []dns.RR
+	for _, k := range pl.sim.U.TrustAnchors() {
+		rr, err := dns.NewRR(k)
+		if err != nil {
+			return err
+		}
+		if dk, ok := rr.(*dns.DNSKEY); ok && len(dk.PublicKey) > 1 {
+			dk.PublicKey = "!" + dk.PublicKey[1:]
+		}
+		rrs = append(rrs, rr)
+	}
+	resolver.VerifSetTrustAnchors(pl.res, rrs)
+	return nil
+}
+
 // Reset returns resolver and cache to the cold state (delegations, glue,
 // answers, negative / failure / proof state, circuit breaker, singleflight,
 // zone in-flight counters, root RTT statistics) and clears authsim's scripts
